@@ -104,13 +104,38 @@ def run(ck, P):
             if f.name in ("m_mod_register", "reset_module"):
                 ok = v == U64MAX
             elif f.name == "m_mod_set_tokenbucket":
-                ok = (v == U64MAX and has(facts, "rate", False)) or (S(ev.rhs) == "burst" and has(facts, "rate"))
+                # UINT64_MAX: switching the bucket off, or lifting the limit while it is being reconfigured (the final value on the
+                # rate != 0 paths is checked below)
+                ok = v == U64MAX or (S(ev.rhs) == "burst" and has(facts, "rate"))
             else:
                 ok = False
             det = "store %s in %s under %s" % (S(ev.rhs), f.name, fmt_facts(frozenset(x for x in facts if x[0] == "rate")))
         else:
             ok, det = False, "unmodelled update %s" % S(ev.e)
         ck.ob("C18.2-COUNTER", f.site("tokens%s" % op), ok, "%s (line %d)" % (det, ev.line), nontrivial=op != "--")
+
+    tbf = P.fn("m_mod_set_tokenbucket", "Lib/core/mod.c")
+    badl = None
+    nl = 0
+    for path in tbf.paths():
+        a = rules.path_assumes(path)
+        evs = list(rules.path_events(tbf, path))
+        sts = [e for e in evs if e.kind == "assign" and S(e.lhs) == "mod->tb.tokens"]
+        if a.get("rate") is True and sts:
+            nl += 1
+            if S(sts[-1].rhs) != "burst":
+                badl = path
+    ck.ob("C18.2-COUNTER", tbf.site("bucket ends at burst"), badl is None and nl > 0,
+          "%d configuring path(s) leave tokens = burst" % nl if badl is None else "a path with rate != 0 leaves the bucket at a value other than burst (unlimited)",
+          path=rules.fmt_path(tbf, badl) if badl else None)
+    # the removal of the old refill timer must not be refusable by the bucket that is being replaced
+    drs = [e for e in tbf.calls("m_mod_src_deregister_tmr")]
+    lifts = [e for e in tbf.events() if e.kind == "assign" and S(e.lhs) == "mod->tb.tokens" and cval(e.rhs) == U64MAX]
+    okl = bool(drs) and all(any(tbf.ev_dominates(l, d) for l in lifts) or _result_checked(tbf, d) for d in drs)
+    ck.ob("C18.2-COUNTER", tbf.site("old timer removal cannot be throttled"), okl,
+          "the limit is lifted (tokens = UINT64_MAX) before the old refill timer is deregistered, or the result is propagated" if okl else
+          "m_mod_src_deregister_tmr() of the old refill timer consumes a token of the bucket being replaced and its result is ignored: with an empty "
+          "bucket the old timer stays and the module is refilled at r_old + r_new")
 
     # ------------------------------------------------------------------ 3. refill wiring
     ck.rule("C18.3-REFILL", "R-SIBLING: the refill timer has period BILLION / rate with rate validated (<= BILLION, non-zero on that path), "
@@ -134,6 +159,8 @@ def run(ck, P):
     ck.rule("C18.4-OFF", "R-RESET-ALL: rate 0 restores rate=0, burst=tokens=UINT64_MAX and forgets the timer key; stop(mod, stopping) does the "
             "same through reset_module", floor=6)
     bad = None
+    why = ("a rate-0 path leaves the bucket's refill timer registered (or forgets its key first): a later re-enable adds a second timer and the "
+           "bucket refills at r1 + r2")
     n = 0
     for path in tb.paths():
         a = rules.path_assumes(path)
@@ -148,13 +175,19 @@ def run(ck, P):
         rg = [e for e in evs if e.kind == "call" and e.callee == "m_mod_src_register_tmr"]
         if not (st.get("mod->tb.rate") == 0 and st.get("mod->tb.burst") == U64MAX and st.get("mod->tb.tokens") == U64MAX and ms and not rg):
             bad = path
+        # the restore must come after every token-consuming call of the path (a deregistration charges one token)
+        tk = [i for i, e in enumerate(evs) if e.kind == "assign" and S(e.lhs) == "mod->tb.tokens"]
+        cons = [i for i, e in enumerate(evs) if e.kind == "call" and e.callee in ("m_mod_src_deregister_tmr", "m_mod_src_register_tmr")]
+        if tk and cons and max(cons) > max(tk):
+            bad = path
+            why = "a rate-0 path charges a token (timer deregistration) after the last tokens = UINT64_MAX: the switched-off bucket is left at UINT64_MAX - 1, not unlimited"
         # switching the bucket off must also remove its refill timer when one is registered
         dr_ = [e for e in evs if e.kind == "call" and e.callee == "m_mod_src_deregister_tmr" and S(e.args[1]) == "&mod->tb.timer"]
         had = a.get("mod->tb.timer.ns")
         if had is None or (had is True and not dr_) or (dr_ and ms and evs.index(dr_[0]) > evs.index(ms[0])):
             bad = path
     ck.ob("C18.4-OFF", tb.site("rate 0"), bad is None and n > 0, "%d rate-0 path(s) restore the unlimited bucket, remove a registered refill timer first and register none" % n if bad is None else
-          "a rate-0 path leaves the bucket's refill timer registered (or forgets its key first): a later re-enable adds a second timer and the bucket refills at r1 + r2",
+          why,
           path=rules.fmt_path(tb, bad) if bad else None)
     reset_obligations(ck, P, X, "C18.4-OFF", scalar_fields=[("mod->tb.rate", 0), ("mod->tb.burst", U64MAX), ("mod->tb.tokens", U64MAX)],
                       memset_fields=["mod->tb.timer"])
@@ -163,3 +196,22 @@ def run(ck, P):
 
     ck.not_decided += ["the bound b + r*t over wall-clock time", "replenishment while running (timer behaviour)",
                        "re-configuration while user timers with the same period exist (depends on C09 key semantics)"]
+
+
+def _result_checked(f, call_ev):
+    """The call's result is bound to a variable that is tested with a bail-out (return) on its failing value."""
+    for d in f.events():
+        if d.kind in ("decl", "assign") and d.rhs is not None and d.block.id == call_ev.block.id and d.idx == call_ev.idx + 1 \
+                and strip(d.rhs).get("callee") == call_ev.callee:
+            var = S(d.lhs)
+            for g in rules.bailouts(f):
+                if any(a == var and p is False for (a, p) in g.cont_atoms) or any(a == "(%s == 0)" % var and p is True for (a, p) in g.cont_atoms):
+                    return True
+            # `if (ret != 0) return ret;` returns a variable, not a constant: look for a branch on var whose taken arm returns
+            for b in f.blocks.values():
+                if b.term and b.term.get("cond") is not None and any(a == var for (a, _p) in lm.atoms(b.term["cond"], True)):
+                    for (s_, c_, br_) in f.edges(b.id):
+                        blk = f.blocks[s_]
+                        if any(e.kind == "ret" and S(e.e) == var for e in blk.events):
+                            return True
+    return False
